@@ -97,6 +97,21 @@ def run(rep, facts, tier):
         s0 = [x for bb, t in f.calls() for x in [callee_of(t)] if x == 'cell::Cell::value']
         rep.add('C12.R1', 'C12.R1:%s:through-value()' % f.name, len(s0) >= 2, 'compares value() of both sides (tags ignored)' if len(s0) >= 2 else
                 '%s does not look through tags on both sides' % short(f.name), f.name, f.j['span'], nontrivial=False)
+    # the order of each type is the one its `==` belongs to: only PartialOrd / Ord trait methods produce an Ordering here
+    # (std contract: a == b iff partial_cmp(a, b) == Some(Equal)); f64::total_cmp, a hand-written compare or a key
+    # function would separate or merge keys that equal? treats otherwise (0.0 and -0.0)
+    for f in (pcf, cmf):
+        odd = []
+        for bb, t in f.calls():
+            c = callee_of(t) or ''
+            rty = f.ty(t['dest']['t']) if t.get('dest') else ''
+            if 'Ordering' in rty and not (('PartialOrd' in c or 'Ord' in c.split('::')[-2:][0] or '::Ord' in c or 'cmp::impls' in c) and
+                                          (c.endswith('::partial_cmp') or c.endswith('::cmp'))) and not c.startswith('core::option::Option'):
+                odd.append(short(c))
+        rep.add('C12.R1', 'C12.R1:%s:orders-by-the-types-own-order' % f.name, not odd,
+                'every Ordering comes from a PartialOrd / Ord method of the operand type' if not odd else
+                '%s takes an order from %s: not the order that the type\'s == belongs to, so keys equal? calls the same can be different '
+                'map keys (0.0 / -0.0) or the other way round' % (short(f.name), odd), f.name, f.j['span'])
     # fallback of cmp
     fb = None
     for bb, t in cmf.calls():
@@ -215,6 +230,47 @@ def run(rep, facts, tier):
     rep.add('C12.R4', 'C12.R4:relative_index:non-negative-boundary', pos_ok and sign,
             'non-negative index: Some exactly when i < len' if pos_ok and sign else
             'relative_index non-negative branch is not `i < len -> Some`: %s' % conds, rf.name, rf.j['span'])
+
+    # string indices count characters: slice_str cuts with chars().skip(a).take(n), so the length that negative / out-of-range
+    # indices are resolved against must be the character count too (byte length differs for any non-ASCII string)
+    from .. import inline
+    ss = fx.fns.get('state::slice_str')
+    if ss is None:
+        raise MissingAnchor('state::slice_str')
+    ssv = inline.View(fx)('state::slice_str')
+    amounts = []
+    for bb, t in ssv.calls():
+        c = callee_of(t) or ''
+        if c.endswith('Iterator::skip') or c.endswith('Iterator::take'):
+            recv = expr_str(ssv.expr_of_operand(t['args'][0]), -20)
+            if 'chars' in recv:
+                amounts.append((c.split('::')[-1], expr_str(ssv.expr_of_operand(t['args'][1]), -40), t.get('at')))
+    oku = bool(amounts) and all(('Chars' in a and 'count' in a) and 'ArcStr::len' not in a and '<impl str>::len' not in a for _, a, _ in amounts)
+    rep.add('C12.R4', 'C12.R4:slice_str:index-unit-is-chars', oku,
+            'skip/take over chars() use bounds resolved against chars().count()' if oku else
+            'slice_str walks characters but resolves its indices against %s: for a string with multi-byte characters negative and clamped '
+            'indices select other characters' % ([a[:60] for _, a, _ in amounts] or 'nothing recognisable'), ss.name, ss.j['span'])
+
+    # ... and `length` of a string must use the same unit, or `s length` is not a valid bound for slice
+    lf = fx.fns.get('state::core_word_length')
+    if lf is None:
+        raise MissingAnchor('state::core_word_length')
+    lfv = inline.View(fx)('state::core_word_length')
+    str_lens = []
+    for x in expr_walk(lfv.expr_of_local(0)):
+        pass
+    for bb, t in lfv.calls():
+        c = callee_of(t) or ''
+        if c.endswith('::len') or c.endswith('::count'):
+            recv = expr_str(lfv.expr_of_operand(t['args'][0]), -30)
+            if 'as Str' in recv:
+                str_lens.append((short(c), recv, t.get('at')))
+    okl = bool(str_lens) and all('count' in c and 'chars' in r for c, r, _ in str_lens)
+    rep.add('C12.R4', 'C12.R4:length:string-unit-is-chars', okl,
+            'length of a string is chars().count(), the unit slice uses' if okl else
+            'length measures a string with %s while slice counts characters: `s length` is not the number of elements slice sees '
+            '(`"h\u00e9llo" length` is 6, `"h\u00e9llo" 0 5 slice` is the whole string)' % ([c for c, _, _ in str_lens] or 'nothing recognisable'),
+            lf.name, (str_lens or [(0, 0, lf.j['span'])])[0][2])
 
     # ---------- R4 (continued): index arguments reach the sequence words unchanged
     from .. import casts
